@@ -20,11 +20,12 @@ shim_fd_t shim_fd[SHIM_MAXFD];
 int shim_bad_close; const char *shim_bad_close_why = "";
 long shim_lib_opens, shim_lib_closes;
 uint64_t shim_now_ns = 1000ull * 1000000000ull;
-int shim_inject_write_eagain, shim_inject_epoll_errno, shim_epoll_calls, shim_epoll_blocking_calls;
+int shim_inject_write_eagain, shim_inject_epoll_errno, shim_epoll_calls, shim_epoll_blocking_calls, shim_inject_ctl_del;
 int (*shim_env_turn)(void);
 void (*shim_blocked)(void);
 
 int __real_epoll_wait(int, struct epoll_event *, int, int);
+int __real_epoll_ctl(int, int, int, struct epoll_event *);
 int __real_epoll_create1(int);
 int __real_eventfd(unsigned, int);
 int __real_signalfd(int, const sigset_t *, int);
@@ -50,7 +51,7 @@ int shim_open_lib_fds(void) { int n = 0; for (int i = 0; i < SHIM_MAXFD; i++) if
 void shim_reset(void) {
     memset(shim_fd, 0, sizeof shim_fd); memset(VT, 0, sizeof VT);
     shim_bad_close = 0; shim_lib_opens = shim_lib_closes = 0; shim_now_ns = 1000ull * 1000000000ull;
-    shim_inject_write_eagain = shim_inject_epoll_errno = 0; shim_epoll_calls = shim_epoll_blocking_calls = 0;
+    shim_inject_write_eagain = shim_inject_epoll_errno = shim_inject_ctl_del = 0; shim_epoll_calls = shim_epoll_blocking_calls = 0;
 }
 
 /* ---- time ---- */
@@ -142,3 +143,10 @@ ssize_t __wrap_write(int fd, const void *b, size_t n) {
     return __real_write(fd, b, n);
 }
 ssize_t __wrap_read(int fd, void *b, size_t n) { return __real_read(fd, b, n); }
+
+/* one-shot fault: the next EPOLL_CTL_DEL is carried out but reported as failed (e.g. the user already closed the descriptor) */
+int __wrap_epoll_ctl(int epfd, int op, int fd, struct epoll_event *ev) {
+    int r = __real_epoll_ctl(epfd, op, fd, ev);
+    if (op == EPOLL_CTL_DEL && shim_inject_ctl_del) { shim_inject_ctl_del = 0; errno = ENOENT; return -1; }
+    return r;
+}
